@@ -50,6 +50,7 @@ type c12Op struct {
 	Kind   string          `json:"kind,omitempty"` // "cpuset" | "limit"
 	File   string          `json:"file,omitempty"` // cpuset.cpus | cpu.cfs_quota_us | memory.min | memory.low | memory.high
 	Ver    int             `json:"ver,omitempty"`  // cgroup version 1 | 2
+	Unit   int64           `json:"unit,omitempty"` // bytes per abstract unit of the memory files (1 MiB, or 1000: amounts that are no page multiples)
 	Old    json.RawMessage `json:"old,omitempty"`
 	Target json.RawMessage `json:"target,omitempty"`
 	Spell  int             `json:"spell,omitempty"` // spelling of the target strings (0 canonical, 1 alternative), same value
@@ -111,20 +112,21 @@ func c12Encode(kind string, a []c12Val) []interface{} {
 }
 
 type c12Seg struct {
-	t      *testing.T
-	rec    *vu.Recorder
-	par    []int
-	kind   string
-	file   string
-	ver    int
-	rtype  sysutil.ResourceType
-	res    sysutil.Resource
-	dirs   []string // node index (0-based) -> parentDir
-	paths  []string // node index -> absolute file path
-	exec   *ResourceUpdateExecutorImpl
-	stop   chan struct{}
-	stats  *c12Stats
-	minus1 int
+	t       *testing.T
+	rec     *vu.Recorder
+	par     []int
+	kind    string
+	file    string
+	ver     int
+	memUnit int64
+	rtype   sysutil.ResourceType
+	res     sysutil.Resource
+	dirs    []string // node index (0-based) -> parentDir
+	paths   []string // node index -> absolute file path
+	exec    *ResourceUpdateExecutorImpl
+	stop    chan struct{}
+	stats   *c12Stats
+	minus1  int
 	// second caller waiting to enter (par)
 	pend     *c12Op
 	parAt    int
@@ -134,7 +136,7 @@ type c12Seg struct {
 
 type c12Stats struct {
 	segs, rewrites, calls, writes, mergeWrites, exactWrites, sameNodes, shiftNodes, minus1InCPUMax int
-	parSteps, parNested                                                                          int
+	parSteps, parNested                                                                            int
 }
 
 // ---- projection of a file content onto the abstract value (field reads only; -1 / [-1] = not a value of the domain)
@@ -169,7 +171,7 @@ func (s *c12Seg) project(content string) c12Val {
 		if content == "max" || content == c12MaxInt64 {
 			return c12Val{L: c12Unl}
 		}
-		return c12Scaled(content, c12MemUnit)
+		return c12Scaled(content, s.memUnit)
 	}
 }
 
@@ -202,7 +204,7 @@ func (s *c12Seg) kernelForm(v c12Val) string {
 		if v.L == c12Unl {
 			return "max"
 		}
-		return strconv.FormatInt(int64(v.L)*c12MemUnit, 10)
+		return strconv.FormatInt(int64(v.L)*s.memUnit, 10)
 	}
 }
 
@@ -230,7 +232,7 @@ func (s *c12Seg) updaterValue(v c12Val, spell int) string {
 			}
 			return c12MaxInt64 // what cgreconcile writes for "no memory.high"
 		}
-		return strconv.FormatInt(int64(v.L)*c12MemUnit, 10)
+		return strconv.FormatInt(int64(v.L)*s.memUnit, 10)
 	}
 }
 
@@ -338,7 +340,13 @@ func (s *c12Seg) reset(o c12Op, idx int, seed int64) {
 	if o.Ver != 1 && o.Ver != 2 {
 		o.Ver = 1
 	}
-	s.par, s.kind, s.file, s.ver = o.Par, o.Kind, o.File, o.Ver
+	if o.Unit <= 0 { // memory amounts: every third segment in steps of 1000 bytes (neighbouring values closer than a page)
+		o.Unit = c12MemUnit
+		if (idx+int(seed))%3 == 0 {
+			o.Unit = 1000
+		}
+	}
+	s.par, s.kind, s.file, s.ver, s.memUnit = o.Par, o.Kind, o.File, o.Ver, o.Unit
 	sysutil.UseCgroupsV2.Store(s.ver == 2)
 	s.rtype = sysutil.ResourceType(s.file)
 	r, err := sysutil.GetCgroupResource(s.rtype)
@@ -371,7 +379,7 @@ func (s *c12Seg) reset(o c12Op, idx int, seed int64) {
 	}
 	s.stop = make(chan struct{})
 	s.exec.Run(s.stop)
-	s.rec.Reset(vu.Ev{"driver": "leveled", "par": s.par, "kind": s.kind, "file": s.file, "ver": s.ver,
+	s.rec.Reset(vu.Ev{"driver": "leveled", "par": s.par, "kind": s.kind, "file": s.file, "ver": s.ver, "unit": s.memUnit,
 		"old": c12Encode(s.kind, s.snapshot())})
 	s.stats.segs++
 }
